@@ -91,13 +91,20 @@ def g_run_space(spec: Dict[str, Any], tmp: Path, h: int) -> Dict[str, Any]:
                 shared[ck] = write_source(_fn(s["cols"]), tmp / f"src{bi}", h + bi)
             fmt, name = shared[ck]
             src: Dict[str, Any] = {"format": fmt, "path": name, "mode": MODE[s["mode"]]}
+            if s["mode"] == "bp" and (h + bi) % 2:
+                del src["mode"]          # the documented default of a source is by_position (rows are runs)
             if s["select"] != ["*"]:
                 src["select"] = sorted(s["select"])
             if _fn(s["rename"]):
                 src["rename"] = _fn(s["rename"])
             blk["source"] = src
         blocks.append(blk)
-    return {"combine": MODE[spec["combine"]], "max_runs": spec["maxRuns"], "blocks": blocks}
+    rs = {"combine": MODE[spec["combine"]], "max_runs": spec["maxRuns"], "blocks": blocks}
+    if spec["combine"] == "comb" and h % 3 == 0:
+        del rs["combine"]                # documented default: combinatorial
+    if spec["maxRuns"] == 1000 and h % 2 == 0:
+        del rs["max_runs"]               # documented default: 1000
+    return rs
 
 
 def real_expand(rs: Dict[str, Any], tmp: Path) -> Tuple[str, Any]:
